@@ -5,6 +5,9 @@
 From Coq Require Import String List Bool.
 From LC Require Import AstDefs GenDefs GramDefs GramSpec GramProofs ReadDefs CGramDefs PyGramDefs
   EvalDefs EvalProofs ReadProofs LexProofs GenProofs GenWitness.
+From Coq Require Import QArith.
+Local Close Scope Q_scope.
+From LC Require Import ScaleDefs ScaleProofs AnalysisDefs AnalysisSpec ExternalDefs OrderDefs OrderProofs.
 Local Open Scope string_scope.
 
 (** * The text printed for an AST of the safe class is read as the equation says.
@@ -90,16 +93,132 @@ Theorem C03_gen_profiles_agree : forall E a,
 Proof. exact GenProofs.gen_profiles_agree. Qed.
 Print Assumptions C03_gen_profiles_agree.
 
-(* NOT PROVED (not modelled): scale_preserves_value — Analyser::scaleAst / scaleEquationAst insert
-   TIMES(CN factor, .) nodes so that every variable is read in the units of its equivalence class' primary
-   variable; no Coq model of this step exists.  It is only *observed* by the whole-model layer (generated models
-   with scaled connections, compared numerically with an independent evaluator), which found two defects
-   in it (C03-known-variable-on-lhs-not-scaled, C03-bare-rate-on-rhs-voi-scaling). *)
-(* NOT PROVED (not modelled): emit_dependencies_first / emit_each_once — GeneratorImpl::generateEquationCode's
-   dependency-first emission into initialiseVariables / computeComputedConstants / computeRates /
-   computeVariables.  Observed only: the compiled / executed code of every generated model yields the
-   reference values after each of the four phases.  (The emission order itself is modelled and proved under C20:
-   ExternalDefs.v / ExternalEmitProofs.v.) *)
+(** * Unit scaling (analyser.cpp scaleEquationAst, modelled in ScaleDefs; tied tree-exactly to AnalyserEquation::ast()
+    of every equation of every generated model).  [local_env S E] = every variable in its own units, computed from
+    the stored values E (every class in the units of its primary variable); the scaled equation, read over the
+    stored values, says what the written equation says over the local values, for every interpretation of
+    variables, rates, literals and all other operators — exactly when the left side is not a bare scaled variable
+    and the right side is not a bare rate over a scaled variable of integration. *)
+Theorem C03_scale_preserves_value : forall (S : senv) (Es : aenv),
+  (forall v, (0 < sf S v)%Q) ->
+  (forall v, a_lit Es (sf_text S v) = Qcanon.Q2Qc (sf S v)) ->
+  (forall v, a_lit Es (sf_inv_text S v) = Qcanon.Qcinv (Qcanon.Q2Qc (sf S v))) ->
+  forall ev l r,
+  wf_diff l = true -> wf_diff r = true -> lhs_ok S l = true -> bare_rate_ok S l r = true ->
+  (holds Es (scale_eq S (Node EQUALITY ev l r)) <-> holds (local_env S Es) (Node EQUALITY ev l r)).
+Proof. exact ScaleProofs.scale_preserves_value. Qed.
+Print Assumptions C03_scale_preserves_value.
+
+Theorem C03_scale_expr_value : forall (S : senv) (Es : aenv),
+  (forall v, (0 < sf S v)%Q) ->
+  (forall v, a_lit Es (sf_text S v) = Qcanon.Q2Qc (sf S v)) ->
+  (forall v, a_lit Es (sf_inv_text S v) = Qcanon.Qcinv (Qcanon.Q2Qc (sf S v))) ->
+  forall a, wf_diff a = true -> aeval Es (scale_expr S a) = aeval (local_env S Es) a.
+Proof. exact ScaleProofs.scale_expr_value. Qed.
+Print Assumptions C03_scale_expr_value.
+
+(** the two findings of the scaling pass, reproduced by the faithful model *)
+Theorem C03_scale_refuted_lhs :
+  scale_eq env1 eq1 = eq1 /\ lhs_ok env1 (ci "k") = false
+  /\ holds (local_env env1 stored1) eq1 /\ ~ holds stored1 (scale_eq env1 eq1).
+Proof. exact ScaleProofs.scale_refuted_lhs. Qed.
+Print Assumptions C03_scale_refuted_lhs.
+
+Theorem C03_scale_refuted_bare_rate :
+  scale_eq env2 eq2 = Node EQUALITY "" (ci "y") (Node TIMES "" (cn "1000") rate2)
+  /\ bare_rate_ok env2 (ci "y") rate2 = false
+  /\ holds (local_env env2 stored2) eq2 /\ ~ holds stored2 (scale_eq env2 eq2).
+Proof. exact ScaleProofs.scale_refuted_bare_rate. Qed.
+Print Assumptions C03_scale_refuted_bare_rate.
+
+Example C03_scale_nonvacuous :
+  wf_diff (left_of eq3) = true /\ wf_diff (right_of eq3) = true /\ lhs_ok env3 (left_of eq3) = true
+  /\ bare_rate_ok env3 (left_of eq3) (right_of eq3) = true
+  /\ scale_eq env3 eq3 =
+     Node EQUALITY "" (Node DIFF "" (Node BVAR "" (ci "t") Null) (ci "x"))
+       (Node TIMES "" (cn "1000")
+          (bin PLUS (Node TIMES "" (cn "0.01") (ci "p"))
+                    (bin ROOT (un DEGREE (Node TIMES "" (cn "0.01") (ci "p"))) (ci "x")))).
+Proof. exact ScaleProofs.scale_nonvacuous. Qed.
+Print Assumptions C03_scale_nonvacuous.
+
+(** * Emission order (generator.cpp generateEquationCode and the four method bodies: the transcription is C20's
+    ExternalDefs, reused; tied exactly to the sequence of array entries assigned by each generated method of every
+    generated model).  Runtime contract: initialiseVariables, computeComputedConstants, computeRates, computeVariables
+    in this order.  [rem] = remainingEquations when the method starts; ordered_all (OrderDefs) = every non-constant
+    equation of the body stands after each dependency (its own and, for an NLA system, its siblings') that the
+    generator wants and that no earlier method emitted (OrderProofs.ordered_all_means spells it out). *)
+Theorem C03_emit_dependencies_first_constants : forall r rank rem, acyclic_by r rank -> NoDup rem ->
+  ordered_all r true nil rem nil (eq_positions (fst (computed_constants_body r sfx rem))) = true.
+Proof. exact OrderProofs.emit_dependencies_first_constants. Qed.
+Print Assumptions C03_emit_dependencies_first_constants.
+
+Theorem C03_emit_dependencies_first_rates : forall r rank rem, acyclic_by r rank -> NoDup rem ->
+  ordered_all r true nil rem nil (eq_positions (fst (rates_body r sfx rem))) = true.
+Proof. exact OrderProofs.emit_dependencies_first_rates. Qed.
+Print Assumptions C03_emit_dependencies_first_rates.
+
+Theorem C03_emit_dependencies_first_variables : forall r rank rem, acyclic_by r rank -> NoDup (all_pos r) ->
+  ordered_all r false rem (all_pos r) nil (eq_positions (variables_body r sfx rem)) = true.
+Proof. exact OrderProofs.emit_dependencies_first_variables. Qed.
+Print Assumptions C03_emit_dependencies_first_variables.
+
+Theorem C03_emit_each_once_constants : forall r rem, NoDup rem ->
+  once_post rem (eq_positions (fst (computed_constants_body r sfx rem))) (snd (computed_constants_body r sfx rem)).
+Proof. exact OrderProofs.emit_each_once_constants. Qed.
+Print Assumptions C03_emit_each_once_constants.
+
+Theorem C03_emit_each_once_rates : forall r rem, NoDup rem ->
+  once_post rem (eq_positions (fst (rates_body r sfx rem))) (snd (rates_body r sfx rem)).
+Proof. exact OrderProofs.emit_each_once_rates. Qed.
+Print Assumptions C03_emit_each_once_rates.
+
+Theorem C03_emit_each_once_variables : forall r rem, NoDup (all_pos r) -> NoDup (eq_positions (variables_body r sfx rem)).
+Proof. exact OrderProofs.emit_each_once_variables. Qed.
+Print Assumptions C03_emit_each_once_variables.
+
+Theorem C03_emit_each_once_across : forall r rem, NoDup rem ->
+  let c := computed_constants_body r sfx rem in
+  NoDup (eq_positions (fst c) ++ eq_positions (fst (rates_body r sfx (snd c)))).
+Proof. exact OrderProofs.emit_each_once_across. Qed.
+Print Assumptions C03_emit_each_once_across.
+
+(** what dependencies do not order: reading a RATE (ODE dependencies are never followed, and a rate read is not
+    recorded as a dependency) and an initial value that names a variable *)
+Theorem C03_emit_rates_refuted :
+  acyclic_by r_rates (fun _ => 0)
+  /\ body_slots r_rates (b_rates (emission r_rates)) = (SlRate 0 :: SlRate 1 :: nil)
+  /\ ordered_all r_rates true nil (all_pos r_rates) nil (eq_positions (b_rates (emission r_rates))) = true
+  /\ rate_reads_ok r_rates_reads nil (eq_positions (b_rates (emission r_rates))) = false.
+Proof. exact OrderProofs.emit_rates_refuted. Qed.
+Print Assumptions C03_emit_rates_refuted.
+
+Theorem C03_emit_rates_partial : forall rate_reads code done,
+  (forall p, In p code -> rate_reads p = nil) -> rate_reads_ok rate_reads done code = true.
+Proof. exact OrderProofs.rate_reads_ok_partial. Qed.
+Print Assumptions C03_emit_rates_partial.
+
+Theorem C03_emit_init_refuted :
+  body_slots r_init (b_init (emission r_init)) = (SlVariable 0 :: SlVariable 1 :: nil)
+  /\ init_refs_ok r_init_ref nil (b_init (emission r_init)) = false.
+Proof. exact OrderProofs.emit_init_refuted. Qed.
+Print Assumptions C03_emit_init_refuted.
+
+Theorem C03_emit_init_partial : forall init_ref vars done,
+  (forall pre i post j, vars = (pre ++ (i, true) :: post)%list -> init_ref i = Some j ->
+     mem_nat j done = true \/ In (j, true) pre) ->
+  init_refs_ok init_ref done (init_stmts vars) = true.
+Proof. exact OrderProofs.init_refs_ok_partial. Qed.
+Print Assumptions C03_emit_init_partial.
+
+(* NOT PROVED: (a) that the statements of initialiseVariables for the variables are init_stmts of the variables in
+   array order is true by definition of ExternalDefs.initialise_body but not stated as a theorem; (b) the claims
+   above are per method: the composition "every value read anywhere was computed by an earlier statement of the
+   timeline init, constants, rates, variables" (which also needs that every true constant is emitted by
+   initialiseVariables and every variable-based constant by computeComputedConstants) is not stated; (c)
+   MathML-to-AST construction (analyseNode) and generateInitialisationCode's factor are not modelled (the latter is
+   where C03-initial-value-reference-not-scaled lives); (d) the equation of the method bodies with external
+   variables is C20's. *)
 
 (** * Where the faithful model of the unchanged generator does NOT print what the equation says
     (each witness replayed on the real library; known findings C03-...). *)
